@@ -25,6 +25,12 @@ func CaseName(i int) string {
 	if i == 42 {
 		return "trailing-comments"
 	}
+	if i == 43 {
+		return "const-then-docs"
+	}
+	if i == 44 {
+		return "enum-negative-hex"
+	}
 	if i >= 30 && i < 40 {
 		return "type:" + deepTypes[i-30].name
 	}
@@ -55,6 +61,11 @@ func C11(shard, nshards int) {
 	want := Want(defs, st)
 	vstub.SetLoopBudget(64*len(src) + 1024)
 	got, _, err := bebop.ReadFile(reader(src))
+	if st.Join && err != nil {
+		// several definitions on one line: the property does not say such a
+		// text is accepted, only what it means when it is
+		return
+	}
 	vstub.Assert("c11.err/"+cls, err == nil)
 	if err != nil {
 		return
